@@ -15,9 +15,19 @@ package tokenizer
 //@   modifies nothing
 //@   props C17
 //@
+//@ // nonSpaceAt[p] is set (by a ghost statement after each unicode.IsSpace
+//@ // call) when the rune decoded at byte position p is not white space: every
+//@ // such position ends up inside some token - tokens cover every non-space
+//@ // character.
+//@ ghostvar nonSpaceAt map[int]bool
+//@ spec covers(t *token, p int) bool = t.Offset <= p && p < t.Offset + len(t.Text)
+//@
 //@ func Tokenize
 //@   ensures forall j int :: 0 <= j && j < len(toks) ==> okTok(toks[j], s)
 //@   ensures forall j int, k int :: 0 <= j && j < k && k < len(toks) ==> tokEnd(toks[j]) <= toks[k].Offset
+//@   ensures [covers-non-space] forall p int :: nonSpaceAt[p] && !old(nonSpaceAt[p]) ==> (exists j int :: 0 <= j && j < len(toks) && covers(toks[j], p))
+//@   ghostset nonSpaceAt = update(nonSpaceAt, i, !result) after IsSpace
+//@   loop 1 invariant forall p int :: nonSpaceAt[p] && !old(nonSpaceAt[p]) ==> p < i && ((exists j int :: 0 <= j && j < len(toks) && covers(toks[j], p)) || (tok.Offset >= 0 && tok.Offset <= p))
 //@   modifies nothing
 //@   loop 1 invariant 0 <= i && i <= len(s) && (toks == nil || fresh(toks))
 //@   loop 1 invariant tok != nil && fresh(tok) && ((tok.Offset == -1 && tok.Text == "") || (0 <= tok.Offset && len(tok.Text) > 0 && tokEnd(tok) == i && tok.Text == s[tok.Offset:i]))
